@@ -5,7 +5,8 @@ namespace {
 
 double intervalOf(long c) { return c == 1 ? 0.5 : c == 2 ? 2.0 : c == -1 ? 0.0 : -1.0; }
 double offsetOf(long c) { return c == 1 ? 1.5 : c == 2 ? -2.5 : 0.0; }
-std::vector<double> ticksOf(long c) { if (c == 1) return {1.0, 2.0, 3.5}; if (c == 2) return {-1.0, 0.25}; if (c == -1) return {3.0, 1.0, 2.0}; return {}; }
+// (integral, non-negative values: representable in every numeric element type an alias array may have)
+std::vector<double> ticksOf(long c) { if (c == 1) return {1.0, 2.0, 4.0}; if (c == 2) return {0.0, 3.0}; if (c == -1) return {3.0, 1.0, 2.0}; return {}; }
 std::string unitOf(long c) { return c == 1 ? "ms" : c == 2 ? "mV" : c == -1 ? "foo" : ""; }
 std::string labelOf(long c) { return c == 1 ? "time" : c == 2 ? "dist" : ""; }
 std::vector<std::string> labelsOf(long c) { if (c == 1) return {"a", "b"}; if (c == 2) return {"x"}; return {}; }
@@ -19,12 +20,12 @@ long codeLabels(const std::vector<std::string> &l) { if (l.empty()) return 0; if
 
 struct S {
     nix::File f; nix::Block b; nix::DataArray a; nix::DataFrame df;
-    std::string path; bool numeric; long rank;
+    std::string path; bool numeric; long rank; nix::DataType numType = nix::DataType::Double;
     void create() {
         f = nix::File::open(path, nix::FileMode::Overwrite);
         b = f.createBlock("b", "t");
         nix::NDSize sh = rank == 1 ? nix::NDSize({1}) : nix::NDSize({2, 2});
-        a = b.createDataArray("a", "t", numeric ? nix::DataType::Double : nix::DataType::String, sh);
+        a = b.createDataArray("a", "t", numeric ? numType : nix::DataType::String, sh);
         std::vector<nix::Column> cols = {{"c0", "ms", nix::DataType::Double}, {"c1", "", nix::DataType::Int64}};
         df = b.createDataFrame("df", "t", cols);
         df.rows(2);
@@ -53,6 +54,12 @@ json observe(S &s) {
         case nix::DimensionType::Range: { auto x = d.asRangeDimension(); r["k"] = x.alias() ? "alias" : "range";
             std::vector<double> t; try { t = x.ticks(); } catch (const std::exception &e) { o["issues"].push_back(std::string("ticks() threw: ") + e.what()); }
             r["ticks"] = codeTicks(t); r["label"] = codeLabel(x.label()); r["unit"] = codeUnit(x.unit());
+            // the partial read paths must agree with the full tick vector
+            try {
+                for (size_t q = 0; q < t.size(); q++) if (x.tickAt(q) != t[q]) { o["issues"].push_back("tickAt(" + std::to_string(q) + ") differs from ticks()"); break; }
+                if (!t.empty()) { std::vector<double> ax = x.axis(t.size(), 0); if (ax != t) o["issues"].push_back("axis(count, 0) differs from ticks()");
+                                  if (t.size() >= 2) { std::vector<double> ax2 = x.axis(t.size() - 1, 1); if (ax2 != std::vector<double>(t.begin() + 1, t.end())) o["issues"].push_back("axis(count-1, 1) differs from ticks()"); } }
+            } catch (const std::exception &e) { o["issues"].push_back(std::string("partial tick read threw: ") + e.what()); }
             if (!std::is_sorted(t.begin(), t.end())) o["issues"].push_back("ticks are not ascending");
             break; }
         default: { auto x = d.asDataFrameDimension(); r["k"] = "frame"; auto ci = x.columnIndex(); r["col"] = ci ? (long) *ci : -1;
@@ -120,6 +127,8 @@ std::string doStep(S &s, const json &st, long k) {
 json handle(Ctx &c, const json &rec) {
     S s; s.path = c.path("dims.nix");
     s.numeric = c.opts.value("numeric", true);
+    { static const nix::DataType NT[] = {nix::DataType::Double, nix::DataType::Int64, nix::DataType::Float, nix::DataType::Int32, nix::DataType::UInt8};
+      s.numType = NT[(size_t) ((c.seed + (long) rec["pre"].size()) % 5)]; }
     s.rank = c.opts.value("rank", 2L);
     s.create();
     std::vector<json> all(rec["pre"].begin(), rec["pre"].end());
